@@ -107,7 +107,9 @@ def render(ids, crlf=False, style=None, junk=None):
                 out.append([b'    ', b'\t', b' \t '][(st >> 3) % 3] + nl)
 
         if st & 2:
-            extra = b', x-pad=' + b'p' * [40, 200, 9000][(st >> 6) % 3]
+            # (the key also as short as a key can be: one letter)
+            extra = (b', p=' if st & 256 else b', x-pad=') + \
+                b'p' * [40, 200, 9000][(st >> 6) % 3]
 
         if name in ('preamble', 'meta') and st & 4 and not st & 8:
             # big-endian text with a byte order mark under the generic codec
@@ -175,8 +177,13 @@ def render(ids, crlf=False, style=None, junk=None):
             # may follow a section never depends on what the section says
             body = [b'{"op": "copy"}\n', b'{"op": "move", "path": '
                     b'{"old": "a", "new": "b"}}\n',
-                    b'{"op": "delete"}\n', b'{"stats": {"files": 0}}\n'][
-                        (st >> 6) % 4]
+                    b'{"op": "delete"}\n', b'{"stats": {"files": 0}}\n',
+                    # an object that names a key twice (the second time with
+                    # an escape), with values that have no order
+                    b'{"k": {"a": 1}, "\\u006b": {"b": 2}}\n',
+                    b'{"k": null, "k": 1, "k": "s"}\n'][
+                        ((st >> 6) % 4) + (2 if st & 512 and (st >> 6) % 4 > 1
+                                           else 0)]
             body = tx(sid, body)
             out.append(b'#' + sid.encode() + b': format=json, length=%d'
                        % len(body) + nl + body)
@@ -230,7 +237,7 @@ def generate(rng, tier, cls):
 
         prev = sid
 
-    style = [rng.below(256) if rng.chance(0.3) else 0 for _ in ids]
+    style = [rng.below(1024) if rng.chance(0.3) else 0 for _ in ids]
     sx = gen.gen_stream_extras(rng)
 
     if rng.chance(0.1):
@@ -466,6 +473,22 @@ def execute(scn, L):
                             info)
             except Exception:
                 pass
+
+            # ... nor by the other two loading entry points
+            for name, load in (('from_bytes',
+                                lambda: L.DiffX.from_bytes(data)),
+                               ('from_stream',
+                                lambda: L.DiffX.from_stream(
+                                    io.BytesIO(data)))):
+                try:
+                    load()
+                except L.DiffXParseError as e:
+                    info['exc'] = exc_summary(e, L)
+                    out.violate('C10.legal-rejected', '%s:%s' % (
+                        name, ids[-1]), info)
+                    break
+                except Exception:
+                    pass
 
         out.nontrivial = len(ids) >= 5
         return out
